@@ -47,7 +47,10 @@ impl Session {
                 req.clear();
                 match req.as_mut().read(&mut self.connection).await {
                     Ok(Some(())) => {
-                        let close = matches!(req.headers.Connection(), Some("close" | "Close"));
+                        /* `Connection` is a list of case-insensitive options (RFC 9110 7.6.1): `close`, `Close, TE`, `keep-alive, close`... */
+                        let close = req.headers.Connection().is_some_and(|options|
+                            options.split(',').any(|option| option.trim().eq_ignore_ascii_case("close"))
+                        );
 
                         let res = match catch_unwind(AssertUnwindSafe({
                             let req = req.as_mut();
